@@ -235,10 +235,12 @@ Definition sort_oeqb (x y : sort_out) : bool :=
 Definition uniq_keys {P} (l : list (N * P)) : bool := nodupb N.eqb (map fst l).
 Definition uniq_pairs {P} (l : list (N * N * P)) : bool := nodupb pN_eqb (map fst l).
 (* the canonical-order clause: two arrangements of the same items give the same bytes *)
+(* (the order found in the two byte strings must also be the same list: equal bytes hold equal orders; before, the
+   flag alone was tested, so the answer's two orders were not constrained at all - Proofs/JudgeSoundC20P.v) *)
 Definition sort_ok (i : sort_in) (o : sort_out) : bool :=
   match i, o with
-  | SCommit _ _, SOCommit _ _ same => same
-  | SExec _ _ _ _, SOExec _ _ _ _ same => same
+  | SCommit _ _, SOCommit a b same => same && mr_eqb a b
+  | SExec _ _ _ _, SOExec c c' r r' same => same && list_eqb tN_eqb c c' && list_eqb pN_eqb r r'
   | _, _ => false
   end.
 (* known class 1 (F29): some sort key occurs twice *)
